@@ -277,10 +277,26 @@ def coq_option(x, f):
 # ----------------------------------------------------------------------------
 # Coq build
 
+class _ReLock:
+    """Exclusive lock on the Coq development, re-entrant within the process (so that
+    `prove` can hold it across regenerate -> make -> re-check of the Props file)."""
+    depth = 0
+    fh = None
+
+    def close(self):
+        _ReLock.depth -= 1
+        if _ReLock.depth == 0 and _ReLock.fh is not None:
+            _ReLock.fh.close()
+            _ReLock.fh = None
+
+
 def _lock():
-    f = open(COQ / ".lock", "w")
-    fcntl.flock(f, fcntl.LOCK_EX)
-    return f
+    if _ReLock.depth == 0:
+        f = open(COQ / ".lock", "w")
+        fcntl.flock(f, fcntl.LOCK_EX)
+        _ReLock.fh = f
+    _ReLock.depth += 1
+    return _ReLock()
 
 
 def regenerate_consts(needed=None):
@@ -596,6 +612,14 @@ def prove(ctx, pid=None, extra_targets=(), extractors=None):
     Returns True when everything compiled.  `extractors`: names of the modules
     under harness/extractors/ this property depends on (default: [<pid lower>])."""
     pid = pid or ctx.pid
+    lk = _lock()
+    try:
+        return _prove_locked(ctx, pid, extra_targets, extractors)
+    finally:
+        lk.close()
+
+
+def _prove_locked(ctx, pid, extra_targets, extractors):
     try:
         regenerate_consts(needed=[pid.lower()] if extractors is None else list(extractors))
     except BrokenTie as e:
